@@ -29,6 +29,26 @@ structure Res (σ Out : Type) where
 def Machine.blocked (m : Machine σ Out) (s : σ) (buf : Bytes) : Bool :=
   m.halted s || decide (buf.length < m.need s)
 
+/-- `buf.length < n`, looking at no more than `n` elements (the executable driver runs on buffers of several hundred
+    kilobytes; `List.length` in every iteration made the loop quadratic) -/
+def shorterThan : Bytes → Nat → Bool
+  | _, 0 => false
+  | [], _ + 1 => true
+  | _ :: t, n + 1 => shorterThan t n
+
+theorem shorterThan_eq (b : Bytes) (n : Nat) : shorterThan b n = decide (b.length < n) := by
+  induction b generalizing n with
+  | nil => cases n <;> simp [shorterThan]
+  | cons x t ih => cases n <;> simp [shorterThan, ih]
+
+def Machine.blockedFast (m : Machine σ Out) (s : σ) (buf : Bytes) : Bool :=
+  m.halted s || shorterThan buf (m.need s)
+
+/-- compiled code uses the short-circuiting test; the theorems are about `Machine.blocked` -/
+@[csimp] theorem Machine.blocked_eq_fast : @Machine.blocked = @Machine.blockedFast := by
+  funext σ Out m s buf
+  simp [Machine.blocked, Machine.blockedFast, shorterThan_eq]
+
 /-- the dispatch loop, fuelled -/
 def drain (m : Machine σ Out) : Nat → σ → Bytes → Res σ Out
   | 0, s, buf => ⟨s, buf, [], m.blocked s buf⟩
